@@ -9,6 +9,8 @@ open Vutil
 let mode = if Array.length Sys.argv > 1 then Sys.argv.(1) else "collect"
 let collect = (mode = "collect")
 let zero_fix = Array.length Sys.argv > 3 && Sys.argv.(3) = "zerofix"
+(* proposed repair notes/fix_C17_3.diff: rfbScheduleCopyRegion refreshes the scaled copies of the destination *)
+let copy_fix = Array.exists (fun a -> a = "copyfix") Sys.argv
 let table : (string, int list option) Hashtbl.t = Hashtbl.create 1024
 
 let () =
@@ -77,24 +79,46 @@ let state_s () : string =
     (String.concat " " (List.mapi (fun k c -> if c.calive then Printf.sprintf "%d:%dx%d" k (int_of_z c.ckw) (int_of_z c.ckh)
                                              else Printf.sprintf "%d:dead" k) s.clients))
 
+(* pointer state machine (Scale/ScalePtr.v): deferPtrUpdateTime, pointerClient, remembered motions *)
+let pst = ref { pdefer = Z0; powner = None; pcls = [] }
+let ev_s (pre : string) (e : ((z * z option) * z option) option) : string =
+  let o = function Some v -> string_of_int (int_of_z v) | None -> "indef" in
+  match e with
+  | None -> pre ^ " cb=-"
+  | Some ((b, x), y) -> Printf.sprintf "%s cb=%s,%s b=%d" pre (o x) (o y) (int_of_z b)
+
+(* rfbMarkRectAsModified -> rfbScaledScreenUpdate of every scaled screen in use (the float queries are
+   issued in any case, so that the collected table serves every variant) *)
+let mark (name : string) a b c d (refresh : bool) : unit =
+  let geoms = List.map (fun s -> geom_query (int_of_z s.ssw) (int_of_z s.ssh) a b (c - a) (d - b)) !st.chain in
+  if not refresh then print_endline (name ^ " " ^ state_s ())
+  else if List.exists (fun g -> g = None) geoms then print_endline (name ^ " ERR(geometry indefinite)")
+  else
+    (match mark_modified !tc !fmt (List.map (function Some g -> g | None -> geom_of zero8) geoms) !st with
+     | None -> print_endline (name ^ " ERR")
+     | Some s' -> st := s'; print_endline (name ^ " " ^ state_s ()))
+
 let () =
   iter_lines stdin (fun line ->
     match split_ws line with
     | [] -> ()
     | "case" :: _ ->
         st := { mainscr = { ssw = Z0; ssh = Z0; ssref = Z0; ssfb = empty_fb }; chain = []; clients = [] };
+        pst := { pdefer = Z0; powner = None; pcls = [] };
         print_endline line
     | ["screen"; w; h; b; rm; gm; bm; rs; gs; bs; t] ->
         sw := int_of_string w; sh := int_of_string h; tc := (t = "1");
         fmt := { bpp = zi b; rmax = zi rm; gmax = zi gm; bmax = zi bm; rshift = zi rs; gshift = zi gs; bshift = zi bs };
         st := { mainscr = { ssw = zi w; ssh = zi h; ssref = Z0; ssfb = blank_fb (zi w) (zi h) }; chain = []; clients = [] };
+        pst := { pdefer = Z0; powner = None; pcls = [] };
         print_endline "screen ok"
+    | ["deferptr"; n] -> pst := { !pst with pdefer = zi n }; print_endline "deferptr ok"
     | "fb" :: toks ->
         let f = { fw = z_of_int !sw; fh = z_of_int !sh; rows = chunks !sw (List.map zhex toks) } in
         st := { !st with mainscr = { !st.mainscr with ssfb = f } };
         print_endline "fb ok"
     | "client" :: _ :: _ ->
-        st := client_new !st; print_endline ("client " ^ state_s ())
+        st := client_new !st; pst := ptr_new !pst; print_endline ("client " ^ state_s ())
     | ["scale"; k; n; palm] ->
         let k = int_of_string k and n = int_of_string n in
         (match List.nth_opt !st.clients k with
@@ -103,7 +127,7 @@ let () =
              st := { !st with clients = List.mapi (fun i x -> if i = k then c else x) !st.clients };
              (match scaled_size (z_of_int !sw) (z_of_int !sh) (z_of_int n) with
               | None ->
-                  st := client_gone !st (nat_of_int k);
+                  st := client_gone !st (nat_of_int k); pst := ptr_gone !pst (nat_of_int k);
                   print_endline ("scale msg= " ^ state_s ())
               | Some (w, h) ->
                   (match geom_query (int_of_z w) (int_of_z h) 0 0 !sw !sh with
@@ -123,23 +147,34 @@ let () =
         let m = !st.mainscr in
         let rows = List.mapi (fun y r -> List.mapi (fun x p -> if a <= x && x < c && b <= y && y < d then pv else p) r) m.ssfb.rows in
         st := { !st with mainscr = { m with ssfb = { m.ssfb with rows = rows } } };
-        let geoms = List.map (fun s -> geom_query (int_of_z s.ssw) (int_of_z s.ssh) a b (c - a) (d - b)) !st.chain in
-        if List.exists (fun g -> g = None) geoms then print_endline "fill ERR(geometry indefinite)"
-        else
-          (match mark_modified !tc !fmt (List.map (function Some g -> g | None -> geom_of zero8) geoms) !st with
-           | None -> print_endline "fill ERR"
-           | Some s' -> st := s'; print_endline ("fill " ^ state_s ()))
-    | ["gone"; k] -> st := client_gone !st (nat_of_int (int_of_string k)); print_endline ("gone " ^ state_s ())
-    | ["ptr"; k; x; y] ->
+        mark "fill" a b c d true
+    | ["copy"; x1; y1; x2; y2; dx; dy] ->
+        let (a, b, c, d) = (int_of_string x1, int_of_string y1, int_of_string x2, int_of_string y2) in
+        let m = !st.mainscr in
+        (match copy_pixels m.ssfb (zi x1) (zi y1) (zi x2) (zi y2) (zi dx) (zi dy) with
+         | None -> print_endline "copy ERR(source outside the framebuffer)"
+         | Some pix ->
+             st := { !st with mainscr = { m with ssfb = { m.ssfb with rows = chunks !sw pix } } };
+             (* the tree: the scaled copies are left as they are *)
+             mark "copy" a b c d copy_fix)
+    | ["gone"; k] -> st := client_gone !st (nat_of_int (int_of_string k)); pst := ptr_gone !pst (nat_of_int (int_of_string k)); print_endline ("gone " ^ state_s ())
+    | "ptr" :: k :: x :: y :: bt ->
+        let b = match bt with [b] -> zi b | _ -> Z0 in
         (match List.nth_opt !st.clients (int_of_string k) with
          | Some c when c.calive ->
              let (cw, ch) = (int_of_z c.ckw, int_of_z c.ckh) in
-             if cw = !sw && ch = !sh then Printf.printf "ptr cb=%s,%s\n" x y    (* from == to: unscaled *)
-             else
-               let q a b v = match ask (Printf.sprintf "S %d %d %s" a b v) [0] with
-                 | Some [r] -> string_of_int r | _ -> "indef" in
-               Printf.printf "ptr cb=%s,%s\n" (q cw !sw x) (q ch !sh y)
+             let q a b v = if a = b then Some (zi v)             (* from == to: unscaled *)
+               else match ask (Printf.sprintf "S %d %d %s" a b v) [0] with
+                 | Some [r] -> Some (z_of_int r) | _ -> None in
+             let (p', e) = ptr_msg !pst (nat_of_int (int_of_string k)) b (q cw !sw x) (q ch !sh y) in
+             pst := p'; print_endline (ev_s "ptr" e)
          | _ -> print_endline "ptr cb=-")
+    | ["flush"; k] ->
+        (match List.nth_opt !st.clients (int_of_string k) with
+         | Some c when c.calive ->
+             let (p', e) = ptr_flush !pst (nat_of_int (int_of_string k)) in
+             pst := p'; print_endline (ev_s "flush" e)
+         | _ -> print_endline "flush cb=-")
     | ["corr"; fw_; fh_; tw; th; x; y; w; h] ->
         (match ask (Printf.sprintf "C %s %s %s %s %s %s %s %s" fw_ fh_ tw th x y w h) [0; 0; 0; 0] with
          | Some [a; b; c; d] -> Printf.printf "corr %d %d %d %d\n" a b c d
